@@ -359,6 +359,14 @@ def m_bad_role(b, rng):
     return True
 
 
+def m_bad_auxiliary_role(b, rng):
+    """schema shape: the keys of 'auxiliaries' are restricted to the known roles (propertyNames, a draft-06 keyword)"""
+    if not isinstance(b.get('auxiliaries'), dict):
+        return False
+    b['auxiliaries'][rng.choice(['orbital', 'JKFIT', 'fit', ''])] = 'some-basis'
+    return True
+
+
 def m_missing_top(b, rng):
     from basis_set_exchange import validator
     kind = b['molssi_bse_schema']['schema_type']
@@ -371,7 +379,7 @@ CATALOGUE = [m_no_elements, m_negative_exp, m_zero_exp, m_dup_exp, m_short_row, 
              m_dup_column, m_fused_count, m_tag_missing, m_tag_extra, m_ecp_fused, m_ecp_dup_am, m_ecp_dup_am_other_type, m_ecp_len_gexp, m_ecp_len_coef,
              m_ecp_no_electrons, m_ecp_zero_electrons, m_ecp_zero_column, m_ecp_placeholder_not_highest, m_ecp_zero_row, m_missing_key, m_extra_key, m_number_not_string,
              m_am_negative, m_am_repeated, m_bad_function_type, m_bad_element_key, m_empty_shell_list, m_empty_exponents,
-             m_name_not_in_names, m_bad_role, m_missing_top]
+             m_name_not_in_names, m_bad_role, m_bad_auxiliary_role, m_missing_top]
 
 
 def verdict(r):
